@@ -735,6 +735,7 @@ def run(ctx):
     finally:
         try:
             extra_oracles.univariate_refit_queries(ctx)
+            extra_oracles.univariate_constant_history(ctx)
         except Exception as ex:
             ctx.obligation('oracle:extra:raised', False, 'correspondence', repr(ex))
             ctx.violation('oracle:extra:raised:' + type(ex).__name__, 'extra oracle raised ' + repr(ex), {'repro': '# see tools/vf/extra_oracles.py'})
